@@ -354,6 +354,27 @@ func operations() []operation {
 			}
 			return bufx.MarshalImage(out)
 		}},
+		{"type-filter-extensions", func(ctx context.Context, env Env) ([]byte, error) {
+			// known-extension retention over a chain of extensions, and a custom option named together with a
+			// message that uses it: the closure must not depend on map iteration or on the order of the names
+			img, err := bufx.BuildImage(ctx, map[string]string{"x/v1/x.proto": extensionChainSource})
+			if err != nil {
+				return nil, err
+			}
+			var buf bytes.Buffer
+			for _, types := range [][]string{{"x.v1.A"}, {"x.v1.opt_b", "x.v1.UsesB"}, {"x.v1.UsesB", "x.v1.opt_a", "x.v1.D"}} {
+				out, err := bufimageutil.FilterImage(img, bufimageutil.WithIncludeTypes(shuffled(types, env.ArgSeed+int64(env.Rep))...))
+				if err != nil {
+					return nil, err
+				}
+				data, err := bufx.MarshalImage(out)
+				if err != nil {
+					return nil, err
+				}
+				fmt.Fprintf(&buf, "== %v: %x\n", types, sha256.Sum256(data))
+			}
+			return buf.Bytes(), nil
+		}},
 		{"remote-commits", func(ctx context.Context, env Env) ([]byte, error) {
 			// one remote dependency pinned at four commits (a workspace whose lock files drifted apart), added in an
 			// order that depends on the environment: the newest one is used, whatever the order
@@ -563,3 +584,27 @@ func buildModuleSetWithCommits(ctx context.Context, env Env) (bufmodule.ModuleSe
 	}
 	return builder.Build()
 }
+
+const extensionChainSource = `syntax = "proto2";
+package x.v1;
+import "google/protobuf/descriptor.proto";
+message A { extensions 100 to 200; }
+message B { extensions 100 to 200; }
+message C { extensions 100 to 200; }
+message D { optional string x = 1; extensions 100 to 200; }
+message E { optional string y = 1; }
+extend A { optional B ext_b = 100; }
+extend B { optional C ext_c = 100; }
+extend C { optional D ext_d = 100; }
+extend D { optional E ext_e = 100; }
+message OptA { optional string note = 1; }
+message OptB { optional string note = 1; }
+extend google.protobuf.MessageOptions {
+  optional OptA opt_a = 50101;
+  optional OptB opt_b = 50102;
+}
+message UsesB {
+  option (opt_b) = { note: "b" };
+  optional string u = 1;
+}
+`
